@@ -425,22 +425,31 @@ class SymStr:
                         if not re.fullmatch(r"[A-Za-z0-9]+", pat):
                             return [(OK, ("bool", False), st)]
                 return [(OK, unk("contains"), st)]
+            # atoms of class 'raw' are arbitrary texts that may begin / end with blanks: trimming them gives a different text
             if c == "core::str::<impl str>::trim":
                 q = list(p0)
                 if q and q[0][0] == "lit":
                     q[0] = ("lit", q[0][1].lstrip())
+                elif q and q[0][0] == "atom" and q[0][2] == "raw":
+                    q[0] = ("atom", q[0][1] + ".trim_start", "raw")
                 if q and q[-1][0] == "lit":
                     q[-1] = ("lit", q[-1][1].rstrip())
+                elif q and q[-1][0] == "atom" and q[-1][2] == "raw":
+                    q[-1] = ("atom", q[-1][1] + ".trim_end", "raw")
                 return [(OK, mk(q), st)]
             if c == "core::str::<impl str>::trim_start":
                 q = list(p0)
                 if q and q[0][0] == "lit":
                     q[0] = ("lit", q[0][1].lstrip())
+                elif q and q[0][0] == "atom" and q[0][2] == "raw":
+                    q[0] = ("atom", q[0][1] + ".trim_start", "raw")
                 return [(OK, mk(q), st)]
             if c == "core::str::<impl str>::trim_end":
                 q = list(p0)
                 if q and q[-1][0] == "lit":
                     q[-1] = ("lit", q[-1][1].rstrip())
+                elif q and q[-1][0] == "atom" and q[-1][2] == "raw":
+                    q[-1] = ("atom", q[-1][1] + ".trim_end", "raw")
                 return [(OK, mk(q), st)]
             if c == "alloc::str::<impl str>::to_lowercase":
                 if all(x[0] == "lit" or x[2] in ("int",) for x in p0):
